@@ -268,3 +268,56 @@ Definition plain_table (T : Z) (rules : list prule) (op : Z) : option table :=
       else if op =? 3 then match spec_last T nl rules with Some l => spec_precede T nl l rules | None => None end
       else match spec_first T nl rules with Some f => spec_follow T nl f rules | None => None end
   end.
+
+(* ---------- closed set expressions over a plain grammar: declarative meaning and evaluation from the tables ---------- *)
+(* no reference to a named set *)
+Fixpoint closed_tset (t : tset) : bool :=
+  match t with
+  | TSym _ _ => true
+  | TUnion l | TInter l => forallb closed_tset l
+  | TCompl _ x => closed_tset x
+  | TNamed _ => false
+  end.
+
+Section SetDen.
+  Variable T : Z.
+  Variable rules : list prule.
+
+  Definition op_in (op s a : Z) : Prop :=
+    if op =? 0 then any_in T rules s a else if op =? 1 then first_in T rules s a
+    else if op =? 2 then last_in T rules s a else if op =? 3 then precede_in T rules s a
+    else if op =? 4 then follow_in T rules s a else False.
+
+  Fixpoint set_den (t : tset) (a : Z) : Prop :=
+    match t with
+    | TSym op s => op_in op s a
+    | TUnion l => (fix any (l : list tset) : Prop := match l with [] => False | x :: r => set_den x a \/ any r end) l
+    | TInter l => (fix all (l : list tset) : Prop := match l with [] => True | x :: r => set_den x a /\ all r end) l
+    | TCompl _ x => ~ set_den x a
+    | TNamed _ => False
+    end.
+End SetDen.
+
+Record tables := mkTabs { tb_any : table; tb_first : table; tb_last : table; tb_precede : table; tb_follow : table }.
+
+Definition all_tables (T : Z) (rules : list prule) : option tables :=
+  match plain_table T rules 0, plain_table T rules 1, plain_table T rules 2, plain_table T rules 3, plain_table T rules 4 with
+  | Some a, Some f, Some l, Some p, Some fo => Some (mkTabs a f l p fo)
+  | _, _, _, _, _ => None
+  end.
+
+(* membership of terminal a in a closed set expression, from the tables *)
+Fixpoint mem_set (T : Z) (tb : tables) (t : tset) (a : Z) : bool :=
+  match t with
+  | TSym op s =>
+      if op =? 0 then mem a (sym_val T (tb_any tb) s) else if op =? 1 then mem a (sym_val T (tb_first tb) s)
+      else if op =? 2 then mem a (sym_val T (tb_last tb) s) else if op =? 3 then mem a (tget (tb_precede tb) s)
+      else if op =? 4 then mem a (tget (tb_follow tb) s) else false
+  | TUnion l => existsb (fun x => mem_set T tb x a) l
+  | TInter l => forallb (fun x => mem_set T tb x a) l
+  | TCompl _ x => negb (mem_set T tb x a)
+  | TNamed _ => false
+  end.
+
+Definition eval_set (T : Z) (tb : tables) (t : tset) : list Z :=
+  filter (mem_set T tb t) (map Z.of_nat (seq 0 (Z.to_nat T))).
